@@ -36,6 +36,9 @@ def is_parameter_encryption(
         if command.authorizationArea is None:
             return False
         authorizationArea = command.authorizationArea
+    if authorizationArea is None:
+        # no authorization area, or it was abandoned because it overran its size (warn mode)
+        return False
     if for_response:
         return any(
             authorizationArea.sessionAttributes.encrypt
